@@ -287,12 +287,12 @@ func DecodeRequest(p Protocol, unary bool, method string, header http.Header, bo
 			continue
 		}
 		payload := f.Payload
-		if f.Flags&1 != 0 {
+		if f.Flags&1 != 0 && len(f.Payload) > 0 { // a zero-length payload is the empty message whatever the flag says
 			if alg == "" || alg == "identity" {
 				r.problem("request frame %d flagged compressed but %s names no algorithm", i, encH)
 				continue
 			}
-			if len(f.Payload) > 0 { // zero-length payload: the empty message
+			{
 				payload, err = dec(alg, f.Payload)
 				if err != nil {
 					r.problem("request frame %d does not decompress with %q: %v", i, alg, err)
